@@ -26,7 +26,7 @@ class FastNetNanoCommunicator(FastNetNeuronCommunicator):
     def _process_sa(self, msg):
         # Nano has slightly different variation of this value, get it into a format the base can process
         _, _, _, raw_switch_data = msg.split(',')
-        super()._process_sa(f'00,{raw_switch_data}')
+        super()._process_sa(f'{len(raw_switch_data) // 2:02X},{raw_switch_data}')
 
     def _process_boot_message(self, msg):
         if msg == '00':  # rebooting
